@@ -92,7 +92,7 @@ fn first_diff(a: &Node, b: &Node) -> String {
     format!("{}-payload", a.frag_name())
 }
 
-fn key_forms(src: &mut Src) -> String {
+pub fn key_forms(src: &mut Src) -> String {
     let u = keys::u();
     let hard = |src: &mut Src| if src.bool() { "'" } else { "h" };
     let mut s = String::new();
@@ -157,7 +157,7 @@ fn key_forms(src: &mut Src) -> String {
     s
 }
 
-fn secret_forms(src: &mut Src) -> String {
+pub fn secret_forms(src: &mut Src) -> String {
     let u = keys::u();
     let hard = |src: &mut Src| if src.bool() { "'" } else { "h" };
     let mut s = String::new();
@@ -206,7 +206,7 @@ fn secret_forms(src: &mut Src) -> String {
     s
 }
 
-fn mutate_text(src: &mut Src, s: &str) -> String {
+pub fn mutate_text(src: &mut Src, s: &str) -> String {
     let mut v: Vec<char> = s.chars().collect();
     if v.is_empty() {
         return String::new();
